@@ -46,22 +46,23 @@ const (
 
 // World is the loaded, type-checked and SSA-built program for one build configuration.
 type World struct {
-	Cfg    string
-	Fset   *token.FileSet
-	Pkgs   []*packages.Package
-	ByPath map[string]*packages.Package
-	Prog   *ssa.Program
-	SSA    map[string]*ssa.Package
-	cg     *callgraph.Graph
-	cgKind string
-	out    *Out
-	writes map[*ssa.Function]map[*types.Var]bool // transitive field-write sets (lazy)
+	Cfg         string
+	Fset        *token.FileSet
+	Pkgs        []*packages.Package
+	ByPath      map[string]*packages.Package
+	Prog        *ssa.Program
+	SSA         map[string]*ssa.Package
+	cg          *callgraph.Graph
+	cgKind      string
+	out         *Out
+	writes      map[*ssa.Function]map[*types.Var]bool // transitive field-write sets (lazy)
 	paramEnv    map[*ssa.Parameter][2]int64
 	fieldInv    map[*types.Var][3]int64
 	fieldLenInv map[*types.Var][3]int64
 	nilStored   map[*types.Var]bool
 	sumCache    map[string][]string
-	fninfo map[*ssa.Function]*FnInfo
+	fninfo      map[*ssa.Function]*FnInfo
+	callerIdx   map[*ssa.Function][]ssa.CallInstruction
 }
 
 type LoadCfg struct {
@@ -120,6 +121,7 @@ func load(lc LoadCfg) (*World, error) {
 			w.SSA[sp.Pkg.Path()] = sp
 		}
 	}
+	gWorld = w
 	return w, nil
 }
 
@@ -167,7 +169,7 @@ func (w *World) info(rule, key string, p token.Pos, detail string) {
 	w.add(rule, key, "info", p, detail)
 }
 func (w *World) floor(rule string, n int) { w.out.Floors[rule] = n }
-func (w *World) stat(k string, n int)    { w.out.Stats[k] += n }
+func (w *World) stat(k string, n int)     { w.out.Stats[k] += n }
 
 // check adds ok when cond holds and a violation otherwise.
 func (w *World) check(cond bool, rule, key string, p token.Pos, okDetail, badDetail string, facts ...string) bool {
